@@ -183,17 +183,48 @@ Proof.
       try reflexivity; discriminate.
 Qed.
 
-(* the full property; [C07_full_count] is the part not proved as a theorem
-   (see the report): count = number of dictionaries yielded *)
-Definition C07_full_count : Prop :=
-  forall t u care_vars cb cubes s n ds,
-  wf_tbl t -> uses_only (all_bits t) u ->
-  care_bits_of t care_vars = Some cb ->
+(* ---- count ---------------------------------------------------------------------------------------- *)
+(* count = the number of assignments to the bits of the care variables
+   (default: the support) that satisfy u — by the bijection above, the number
+   of assignments of representable values to those variables that satisfy u *)
+Theorem C07_count_spec : forall t u care_vars s,
+  wf_tbl t -> uses_only (all_bits t) u -> ctx_support t u = Some s ->
+  let cv := match care_vars with Some c => c | None => s end in
+  (forall x, In x s -> In x cv) ->
+  (forall x, In x cv -> exists d, tlookup x t = Some d) ->
+  exists bits, refine_vars cv t = Some bits /\ NoDup bits /\
+    ctx_count t u care_vars = Some (countZ u (all_asgs bits)).
+Proof. exact count_spec. Qed.
+
+(* count equals the number of dictionaries yielded by pick_iter, for an
+   explicit care set covering the support and ANY cubes meeting the contract *)
+Theorem C07_count_eq_yield : forall t u cv cb cubes s,
+  wf_tbl t -> uses_only (all_bits t) u -> ctx_support t u = Some s ->
+  (forall x, In x s -> In x cv) ->
+  (forall x, In x cv -> exists d, tlookup x t = Some d) ->
+  care_bits_of t (Some cv) = Some cb ->
   contract (all_bits t) u cb cubes ->
+  exists n ds, ctx_count t u (Some cv) = Some n /\
+    ctx_pick_iter t u (Some cv) cubes = Some ds /\
+    n = Z.of_nat (List.length ds) /\ n = Z.of_nat (List.length cubes).
+Proof. exact count_eq_yield. Qed.
+
+(* care_vars = None: count(u) is count(u, support) *)
+Theorem C07_count_default : forall t u s, ctx_support t u = Some s ->
+  ctx_count t u None = ctx_count t u (Some s).
+Proof. exact count_default. Qed.
+
+(* Not proved as a theorem (kept visible): for care_vars = None the cubes of
+   dd.pick_iter are total over the support BITS only, so one cube may yield
+   several dictionaries; that their number still equals count(u) is checked by
+   the correspondence on every instance, not proved. *)
+Definition C07_full_count_default : Prop :=
+  forall t u cubes s n ds,
+  wf_tbl t -> uses_only (all_bits t) u ->
+  contract (all_bits t) u None cubes ->
   ctx_support t u = Some s ->
-  match care_vars with None => True | Some cv => forall x, In x s -> In x cv end ->
-  ctx_count t u care_vars = Some n ->
-  ctx_pick_iter t u care_vars cubes = Some ds ->
+  ctx_count t u None = Some n ->
+  ctx_pick_iter t u None cubes = Some ds ->
   n = Z.of_nat (List.length ds).
 
 Print Assumptions C07_bits_values_bijection.
@@ -208,3 +239,6 @@ Print Assumptions C07_apply_spec.
 Print Assumptions C07_pick_iter_spec.
 Print Assumptions C07_contract_checked.
 Print Assumptions C07_pick_iter_total.
+Print Assumptions C07_count_spec.
+Print Assumptions C07_count_eq_yield.
+Print Assumptions C07_count_default.
